@@ -1481,3 +1481,150 @@ def k24_tracker_shape(core, rep, parts=('a', 'b', 'c', 'd')):
         ok = bool(fdr) and bool(qloops) and all(g.dominates(heads[0], n) for n in fdr + qloops)
         rep.ob('K24d', 'every-round-empties-the-queue-and-drains-released-lines', ok,
                'the work-list loop of solve() no longer empties the queue and drains the lines released by newly stored values in every round', _w(sv))
+
+
+MUTATORS = ('append', 'extend', 'insert', 'remove', 'pop', 'clear', 'sort', 'reverse', 'popitem', 'update', 'setdefault', '__delitem__', '__setitem__')
+
+
+def k24e_waiters_only_tracker_mutates(core, rep):
+    """The waiter lists of the dependency trackers are changed only by DependencyTracker's own methods.
+    (1) nothing outside the class touches its state attributes; (2) accessor methods that hand out an
+    internal list (return self.<state> / self.<state>[k] unwrapped) are found, every name bound to such a
+    result is followed through assignments and through the parameters of the core functions it is passed
+    to (Solver methods by name, the prompt callback = every function given as prompt= to Solver(...)),
+    and no mutation (del x[..], x[..] = .., x += .., x.<mutator>()) of such a name exists."""
+    cls = 'DependencyTracker'
+    init = core.method(cls, '__init__')
+    state = sorted({self_attr(t) for x in ast.walk(init.node) if isinstance(x, ast.Assign) for t in x.targets if self_attr(t)})
+    if len(state) < 2:
+        raise AnalysisError('DependencyTracker.__init__: state attributes not found (anchor vanished)')
+    # (1) outside access
+    n_out = 0
+    for f in core.funcs:
+        if f.cls == cls:
+            continue
+        for x in ast.walk(f.node):
+            if isinstance(x, ast.Attribute) and x.attr in state:
+                if isinstance(x.value, ast.Name) and x.value.id == 'self' and f.cls and _class_tracks(core, f.cls, x.attr):
+                    continue          # the class's own attribute of the same name
+                n_out += 1
+                rep.ob('K24e', f'{f.qual}@outside-access:{unparse(x, 50)}', False,
+                       f'{f.qual} reaches into the dependency tracker\'s state ({unparse(x)}): waiters can be dropped or reordered behind the tracker\'s back', _w(f, x))
+    rep.ob('K24e', 'tracker-state-private', n_out == 0, '', _w(init))
+    # (2) alias-returning accessors
+    aliasing = {}
+    ci = core.classes.classes[cls]
+    for f in core.funcs:
+        if f.cls != cls or f.name == '__init__':
+            continue
+        for x in ast.walk(f.node):
+            if isinstance(x, ast.Return) and x.value is not None:
+                v = x.value
+                if self_attr(v) in state or (isinstance(v, ast.Subscript) and self_attr(v.value) in state):
+                    aliasing[f.name] = f
+    tainted = {}          # (id(FuncInfo), name) -> (FuncInfo, origin text)
+    by_name = {}
+    for f in core.funcs:
+        by_name.setdefault(f.name, []).append(f)
+    prompts = set()
+    for f in core.funcs:
+        for c in calls_in(f.node):
+            if call_name(c) != 'Solver':
+                continue
+            for kw in c.keywords:
+                if kw.arg != 'prompt':
+                    continue
+                cands = {n.id for n in ast.walk(kw.value) if isinstance(n, ast.Name)}
+                # one level of local assignment: prompt_fn = prompt_input if ... else None
+                for x in ast.walk(f.node):
+                    if isinstance(x, ast.Assign) and any(isinstance(t, ast.Name) and t.id in cands for t in x.targets):
+                        cands |= {n.id for n in ast.walk(x.value) if isinstance(n, ast.Name)}
+                prompts |= {n for n in cands if any(g.cls is None for g in by_name.get(n, []))}
+    changed = True
+
+    def taint(f, name, why):
+        nonlocal changed
+        k = (id(f), name)
+        if k not in tainted:
+            tainted[k] = (f, why)
+            changed = True
+    rounds = 0
+    while changed and rounds < 10:
+        changed = False
+        rounds += 1
+        for f in core.funcs:
+            if f.cls == cls:
+                continue
+            for x in ast.walk(f.node):
+                if isinstance(x, ast.Assign) and len(x.targets) == 1 and isinstance(x.targets[0], ast.Name):
+                    v = x.value
+                    if isinstance(v, ast.Call) and call_name(v) in aliasing and isinstance(v.func, ast.Attribute):
+                        taint(f, x.targets[0].id, f'{unparse(v, 60)} hands out the tracker\'s own list')
+                    if isinstance(v, ast.Name) and (id(f), v.id) in tainted:
+                        taint(f, x.targets[0].id, tainted[(id(f), v.id)][1])
+                if isinstance(x, ast.Call):
+                    nm = call_name(x)
+                    targets = []
+                    if isinstance(x.func, ast.Attribute) and isinstance(x.func.value, ast.Name) and x.func.value.id == 'self':
+                        if nm == '_prompt':
+                            for pn in prompts:
+                                targets += [(g, 0) for g in by_name.get(pn, []) if g.cls is None]
+                        else:
+                            targets += [(g, 1) for g in by_name.get(nm, []) if g.cls == f.cls]
+                    elif isinstance(x.func, ast.Name):
+                        targets += [(g, 0) for g in by_name.get(nm, []) if g.cls is None]
+                    for (g, skip) in targets:
+                        params = [a.arg for a in g.node.args.args][skip:]
+                        for i, a in enumerate(x.args):
+                            direct = isinstance(a, ast.Call) and call_name(a) in aliasing and isinstance(a.func, ast.Attribute)
+                            if ((isinstance(a, ast.Name) and (id(f), a.id) in tainted) or direct) and i < len(params):
+                                taint(g, params[i], f'passed from {f.qual}')
+    n_names = 0
+    for (fid, name), (f, why) in sorted(tainted.items(), key=lambda kv: (kv[1][0].qual, kv[0][1])):
+        n_names += 1
+        bad = []
+        # an unconditional rebinding to a fresh copy at the top level of the function ends the aliasing
+        fresh_from = None
+        for st in f.node.body:
+            if isinstance(st, ast.Assign) and len(st.targets) == 1 and isinstance(st.targets[0], ast.Name) and st.targets[0].id == name:
+                v = st.value
+                is_copy = (isinstance(v, ast.Call) and call_name(v) in ('list', 'sorted', 'tuple', 'copy', 'deepcopy', 'set', 'dict')) or \
+                          (isinstance(v, ast.Subscript) and isinstance(v.slice, ast.Slice)) or isinstance(v, (ast.ListComp, ast.List))
+                if is_copy:
+                    fresh_from = st.lineno
+                    break
+        for x in ast.walk(f.node):
+            if fresh_from is not None and getattr(x, 'lineno', 0) > fresh_from:
+                continue
+            if isinstance(x, ast.Delete):
+                for t in x.targets:
+                    if isinstance(t, ast.Subscript) and isinstance(t.value, ast.Name) and t.value.id == name:
+                        bad.append(x)
+            if isinstance(x, (ast.Assign, ast.AugAssign)):
+                ts = x.targets if isinstance(x, ast.Assign) else [x.target]
+                for t in ts:
+                    if isinstance(t, ast.Subscript) and isinstance(t.value, ast.Name) and t.value.id == name:
+                        bad.append(x)
+                    if isinstance(x, ast.AugAssign) and isinstance(t, ast.Name) and t.id == name:
+                        bad.append(x)
+            if isinstance(x, ast.Call) and isinstance(x.func, ast.Attribute) and isinstance(x.func.value, ast.Name) and x.func.value.id == name and x.func.attr in MUTATORS:
+                bad.append(x)
+        rep.ob('K24e', f'{f.qual}@{name}-not-mutated', not bad,
+               f'{f.qual} changes `{name}` ({unparse(bad[0], 60) if bad else ""}), which is the dependency tracker\'s own list of waiting lines ({why}): the waiters removed are never re-attempted and never named in the failure report', _w(f, bad[0] if bad else None))
+    if not aliasing:
+        rep.notes.append('K24e: no accessor hands out an internal list any more')
+    elif n_names < 2:
+        raise AnalysisError('K24e: the names bound to the tracker\'s waiter lists were not found (anchor vanished)')
+    rep.count('names aliasing tracker lists followed', n_names)
+
+
+def _class_tracks(core, cname, attr):
+    """does class `cname` assign self.<attr> itself (then it is its own attribute)"""
+    for f in core.funcs:
+        if f.cls == cname:
+            for x in ast.walk(f.node):
+                if isinstance(x, (ast.Assign, ast.AugAssign)):
+                    ts = x.targets if isinstance(x, ast.Assign) else [x.target]
+                    if any(self_attr(t) == attr for t in ts):
+                        return True
+    return False
